@@ -128,7 +128,8 @@ def irregular_histories(rng, t0: datetime, end: datetime):
         g = rng.choice(["antenna", "eccentricity"])
         g0 = t0 + timedelta(days=rng.randint(200, 2000))
         g1 = g0 + timedelta(days=rng.randint(30, 900))
-        out = {g: [(t0, g0), (g1, end)], "receiver": [(t0, g0), (g0, end)], "_same_receiver": True}
+        fw = g0 + timedelta(days=rng.choice([0, 0, 0, 1, -1]))  # the firmware date: the same day, or a day off
+        out = {g: [(t0, g0), (g1, end)], "receiver": [(t0, fw), (fw, end)], "_same_receiver": True}
         k = "eccentricity" if g == "antenna" else "antenna"
         out[k] = [(t0, end)]
         return out
@@ -983,8 +984,10 @@ def gen_tms_dataset(rng):
     d = dataset.Dataset(num_obs=n)
     # the time field in another scale than UTC, epochs a few seconds after midnight of that scale (their UTC day is the day
     # before: GPS-UTC = 18 s, TAI-UTC = 37 s)
-    scale = rng.choice(["utc", "utc", "gps", "tai"])
-    tod = rng.choice([0, 0, 5, 30, 43200])
+    scale = rng.choice(["utc", "utc", "gps", "tai", "tt"])
+    tod = rng.choice([0, 0, 5, 30, 60, 43200, 86340, 86395])  # within a minute of midnight on either side, noon
+    if rng.random() < 0.2:
+        t0 = datetime(t0.year, 12, rng.choice([30, 31]))  # … and across the end of a year
     d.add_time("time", val=[t0 + timedelta(days=k, seconds=tod) for _, k in rows], scale=scale, fmt="datetime")
     d.add_text("station", val=[stas[si] for si, _ in rows])
     bases = [np.array([gen_coord(rng, allow_nan=False) for _ in range(3)]) for _ in range(nsta)]
